@@ -812,6 +812,12 @@ func (e *Exec) evalAddrOf(st *State, x *ast.UnaryExpr) Term {
 	t := e.typeOf(inner)
 	v := e.eval(st, inner)
 	e.Assumed["address-of a field or element (&x.f) yields a copy; writes through it are not propagated back"] = true
+	if structOf(t) != nil && !isPointer(t) {
+		// the value already lives somewhere: its memo cells are assumed, not checked
+		ref := e.allocRef(st, "cell")
+		e.storeStructRaw(st, ref, t, v)
+		return ref
+	}
 	return e.newCell(st, t, v)
 }
 
